@@ -282,7 +282,7 @@ func RunRoute(behs [][]Step, tr *Trace, env Env, sum *Summary) {
 					s.keys[owner] = nk
 					res["ok"] = true
 				case "Restart":
-					if pan, to := guarded(func() { must(w.Restart()) }, 30*time.Second); pan != "" || to {
+					if pan, to := guarded(func() { must(w.Restart()) }, 150*time.Second); pan != "" || to {
 						if strings.Contains(pan, "harness-error") {
 							panic(pan)
 						}
